@@ -80,6 +80,12 @@ def step(op, arg):
         b = io.BytesIO()
         p.write(b)
         return sha(b.getvalue())
+    if op == "structure":
+        with open(arg, "rb") as f:
+            p = PSD.read(f)
+        import re
+        # object addresses in default reprs are not part of the structure
+        return sha(re.sub(r" at 0x[0-9a-fA-F]+", "", repr(p)).encode("utf-8", "replace"))
     if op == "open_save":
         psd = PSDImage.open(arg)
         b = io.BytesIO()
